@@ -6,7 +6,10 @@ d=$(mktemp -d /tmp/seed.XXXXXX)
 git -C /repo worktree add -q --detach "$d" HEAD || exit 2
 if ! git -C "$d" apply "$patch"; then echo "patch does not apply"; git -C /repo worktree remove --force "$d"; exit 2; fi
 cd "$(dirname "$0")/.."
+# the evidence file of a seeded run describes a scratch worktree: keep the one written from /repo
+cp "evidence/$id.json" "$d.evidence" 2>/dev/null
 VERIF_REPO="$d" ./check "$id" --tier "$tier"; rc=$?
+[ -f "$d.evidence" ] && mv "$d.evidence" "evidence/$id.json"
 git -C /repo worktree remove --force "$d"
 # regenerate Gen from the real repository again
 .work/bin/go2lean -repo /repo -out lean/GoMC/Gen >/dev/null 2>&1
